@@ -556,10 +556,10 @@ def items(tier: str, seed: int) -> List[Dict[str, Any]]:
             add(eng, [first], 3, 300)
         if not quick:
             # length 5 for the operation pairs that set up the interesting states (two more symbolic operations + forms)
-            for second in ("SPA", "SPN", "GRND", "DSEND", "LATR", "STPA", "SPK", "SEND"):
+            for second in ("SPN", "GRND", "STPA"):
                 for third in OPS:
                     add(eng, ["SPA", second, third], 5, 900)
-            for first in ("SPK", "SPB", "SPN", "SEND"):
+            for first in ("SPK", "SPN"):
                 for second in OPS:
                     add(eng, [first, second], 4, 600)
     return out
